@@ -710,6 +710,70 @@ func runC12(c *Ctx) {
 		}
 	}
 	c.min("R12.6", 1)
+	// once the writer goroutine runs, its pipe is the body: the body handed to the request is never reset to nil on a
+	// path that follows the go statement (nobody would read or close the pipe: the writer blocks for ever)
+	if bh := p.FnOpt("(*rt/client.request).buildHTTP"); bh != nil {
+		var gos []*ssa.Go
+		for _, in := range ownInstrs(bh) {
+			if gi, ok := in.(*ssa.Go); ok {
+				gos = append(gos, gi)
+			}
+		}
+		for _, nr := range callsIn(bh, "net/http.NewRequestWithContext", "net/http.NewRequest") {
+			if nr.Parent() != bh {
+				continue
+			}
+			args := nr.Common().Args
+			body := args[len(args)-1]
+			seen := map[ssa.Value]bool{}
+			var walk func(v ssa.Value)
+			walk = func(v ssa.Value) {
+				if seen[v] {
+					return
+				}
+				seen[v] = true
+				switch x := v.(type) {
+				case *ssa.MakeInterface:
+					walk(x.X)
+				case *ssa.ChangeInterface:
+					walk(x.X)
+				case *ssa.UnOp:
+					if ad, isLd := derefLoad(x); isLd {
+						if cell, isCell := ad.(*ssa.Alloc); isCell {
+							for _, st := range storesToCell(cell) {
+								if st.Parent() != bh {
+									continue
+								}
+								if !isNilConst(st.Val) {
+									walk(st.Val)
+									continue
+								}
+								for _, gi := range gos {
+									if gi.Block() == st.Block() && dominates(gi, st) || gi.Block() != st.Block() && reachableFrom(gi.Block(), st.Block()) {
+										c.obD("R12.6", st, "started-writer-keeps-its-reader", false, "after the multipart writer was started the request body is its pipe on every path (a body dropped afterwards leaves the writer blocked and the files open)", "the body is reset to nil ("+c.P.InstrPos(st)+") after the go statement at "+c.P.InstrPos(gi))
+									}
+								}
+							}
+						}
+					}
+				case *ssa.Phi:
+					for i, e := range x.Edges {
+						if isNilConst(e) {
+							for _, gi := range gos {
+								pred := x.Block().Preds[i]
+								if gi.Block() == pred || reachableFrom(gi.Block(), pred) {
+									c.obD("R12.6", x, "started-writer-keeps-its-reader", false, "after the multipart writer was started the request body is its pipe on every path (a body dropped afterwards leaves the writer blocked and the files open)", "the body can become nil again ("+c.P.InstrPos(x)+") after the go statement at "+c.P.InstrPos(gi))
+								}
+							}
+							continue
+						}
+						walk(e)
+					}
+				}
+			}
+			walk(body)
+		}
+	}
 	_ = op
 }
 
